@@ -212,9 +212,11 @@ impl Watcher {
 
         // TODO: This is not atomic, we update the users slots and THEN add their appointment
         // this means it can happen that we update the slots but some failure happens before we insert their appointment.
-        let available_slots = self
+        // (the expiry reported with the balance is the one the subscription has when the appointment is charged: it may have
+        // been renewed since the check above)
+        let (available_slots, expiry) = self
             .gatekeeper
-            .add_update_appointment(user_id, uuid, &extended_appointment)
+            .add_update_appointment_and_get_expiry(user_id, uuid, &extended_appointment)
             .map_err(|_| AddAppointmentFailure::NotEnoughSlots)?;
 
         // FIXME: There's an edge case here if store_triggered_appointment is called and bitcoind is unreachable.
